@@ -9,7 +9,9 @@ Descriptor grammar (all JSON):
   wth  := {"a": async?, "n": named?, "m": mgr}
   mgr  := {"t": "plain", "a": async?, "f": falsy?}
         | {"t": "gen", "a": async?, "f": falsy?, "body": frm}
-        | {"t": "stack", "a": async?, "f": falsy?, "cbs": [cb]}
+        | {"t": "stack", "a": async?, "f": falsy?, "cbs": [cb], "cur": cb?}
+          ("cur": only on the stack of an ["exit", wth] tail = the stack is observed in the middle of
+           its own exit: cur was registered last, has been popped and is running; cbs are pending)
   cb   := {"k": kind, "x": exitname?, "m": mgr | null}
 """
 import contextlib
@@ -149,6 +151,8 @@ class Env:
             for c in m["cbs"]:
                 if c.get("m") is not None:
                     self._num_mgr(c["m"])
+            if m.get("cur") is not None and m["cur"].get("m") is not None:
+                self._num_mgr(m["cur"]["m"], act=True)
 
     def _num_frm(self, f, fk, on_path, body):
         f["_id"] = 10 + self.nfrm
@@ -255,21 +259,29 @@ class Env:
             return (contextlib.AsyncExitStack if a else contextlib.ExitStack)()
         raise AssertionError(t)
 
-    def _fresh_fn(self, is_async):
+    def _fresh_fn(self, is_async, act=False):
+        env = self
         if is_async:
             async def afn(*a, **kw):
-                pass
+                if act:
+                    if env.mode == "run":
+                        env.probe()
+                    else:
+                        await _trap()
             return afn
 
         def fn(*a, **kw):
-            pass
+            if act:
+                env.probe()
         return fn
 
     def _populate(self, m):
         st = self.m[m["_i"]]
         regs = []
-        for c in m["cbs"]:
+        cur = m.get("cur")
+        for c in m["cbs"] + ([cur] if cur is not None else []):
             k = c["k"]
+            act = c is cur
             child = self.m[c["m"]["_i"]] if c.get("m") is not None else None
             cm = c.get("m")
             if k == "enter":
@@ -287,10 +299,10 @@ class Env:
                 st.push_async_exit(child)
                 registered = child
             elif k in ("pushfn", "pushafn"):
-                registered = self._fresh_fn(k == "pushafn")
+                registered = self._fresh_fn(k == "pushafn", act)
                 (st.push if k == "pushfn" else st.push_async_exit)(registered)
             elif k in ("callback", "acallback"):
-                registered = self._fresh_fn(k == "acallback")
+                registered = self._fresh_fn(k == "acallback", act)
                 if k == "callback":
                     st.callback(registered, 1, k=2)
                 else:
